@@ -259,6 +259,14 @@ impl FarmGen {
                 }
                 funds.retain(|c| !c.amount.is_zero());
             }
+            5 => {
+                // under-fund the reward: only the fee, or a random part
+                if let Some(c) = funds.iter_mut().find(|c| c.denom == denom) {
+                    let keep = if f.cfg.create_farm_fee.denom == denom && self.rng.gen_bool(0.5) { f.cfg.create_farm_fee.amount.u128() } else { self.rng.gen_range(0..c.amount.u128()) };
+                    c.amount = Uint128::new(keep);
+                }
+                funds.retain(|c| !c.amount.is_zero());
+            }
             4 => {
                 if !funds.iter().any(|c| c.denom == "ux12") {
                     funds.push(coin(5, "ux12"));
